@@ -42,6 +42,8 @@ func main() {
 		genEnum(w, env, r, a.Tier)
 		genRandom(w, env, r, a.Tier)
 		genInit(w, env, r, a.Tier)
+		genRebind(w, env, r, a.Tier)
+		genChain(w, env, r, a.Tier)
 		goSide(w, env)
 	}
 	env.cleanup()
